@@ -109,6 +109,10 @@ func libCall(e *Exec, st *State, fr *Frame, callee *ssa.Function, args []*Value,
 		// writes 1..4 bytes into p[0:n]; requires len(p) >= n
 		n := UF("utf8_enclen", SBV(64), args[1].One())
 		st.Assume(And(BVCmp("bvuge", n, BV64(1)), BVCmp("bvule", n, BV64(4))))
+		// exactly the runes below utf8.RuneSelf are encoded in one byte
+		if rn := args[1].One(); rn.Sort == SBV(32) {
+			st.Assume(Eq(Eq(n, BV64(1)), And(BVCmp("bvsge", rn, BVu(0, 32)), BVCmp("bvslt", rn, BVu(128, 32)))))
+		}
 		if !e.mayPanic(st, fr, BVCmp("bvult", args[0].L[1], n), "index", nil, StrPanic("runtime error: index out of range")) {
 			return true
 		}
@@ -395,6 +399,19 @@ func (e *Exec) reflectCall(st *State, fr *Frame, callee *ssa.Function, name stri
 	case "(reflect.Value).Kind", "(reflect.Value).IsValid", "(reflect.Value).CanInterface":
 		// defined on every Value, the zero Value included
 		neverPanics = true
+	case "(reflect.Value).Len":
+		// panics exactly when the kind is not array, chan, map, slice or string
+		if len(as) >= 1 && fr.mode == "panics" {
+			kd := UF(sanitize("(reflect.Value).Kind")+"_00", SBV(64), as[0])
+			var okk []*Term
+			for _, c := range []int64{17, 18, 21, 23, 24} {
+				okk = append(okk, Eq(kd, BV64(c)))
+			}
+			if !e.mayPanic(st, fr, Not(Or(okk...)), "reflect-panic", nil, nil) {
+				return true
+			}
+			neverPanics = true
+		}
 	case "(reflect.Value).IsNil":
 		// panics exactly when the kind is not chan, func, interface, map, pointer, slice or unsafe pointer
 		if len(as) >= 1 {
